@@ -165,6 +165,10 @@ func drawC01(src *vs.Src) *c01Params {
 		p.Conns = 3
 	}
 	p.PlainCache = p.Server.Cache != "" && src.Bool(1, 3)
+	if src.Bool(1, 6) {
+		// the server's signing key pair carries a chain (one to three more certificates behind the leaf)
+		p.Server.ChainPad = 1 + src.Intn(3)
+	}
 	if src.Bool(1, 4) {
 		p.ThinkMs = pickInt(src, []int{1500, 6000})
 	}
@@ -474,6 +478,9 @@ func (c01) Run(c *Case, src *vs.Src) *Result {
 		}
 		// peer certificates: exactly what the other side presented
 		wantC := [][]byte{fix.DER(p.Server.Certs[0]), fix.DER(p.Server.Certs[1])}
+		for k := 0; k < p.Server.ChainPad; k++ {
+			wantC = append(wantC, fix.DER("ca1")) // the chain behind the signing certificate follows the two leaves
+		}
 		if !equalDERs(o.CCS.Peer, wantC) {
 			r.Violate("peer-certs", sigp+" client-peer-certs", "%s: client reports %d peer certificates, server presented %v", conn, len(o.CCS.Peer), p.Server.Certs)
 		}
